@@ -96,11 +96,17 @@ class RationalQuadraticSpline(AbstractBijection):
             jnp.full(knots + 2, jnp.log(jnp.exp(1 - min_derivative) - 1)),
         )
 
+    @property
+    def _interior_point(self):
+        # A point inside the interval (0 is only inside if the interval contains it), used in
+        # place of out of bounds inputs so the unselected branch stays nan free.
+        return (self.interval[0] + self.interval[1]) / 2
+
     def transform(self, x, condition=None):
         # Following notation from the paper
         x_pos, y_pos, derivatives = self.x_pos, self.y_pos, self.derivatives
         in_bounds = jnp.logical_and(x >= self.interval[0], x <= self.interval[1])
-        x_robust = jnp.where(in_bounds, x, 0)  # To avoid nans
+        x_robust = jnp.where(in_bounds, x, self._interior_point)  # To avoid nans
         k = jnp.maximum(jnp.searchsorted(x_pos, x_robust) - 1, 0)  # k is bin number
         xi = (x_robust - x_pos[k]) / (x_pos[k + 1] - x_pos[k])
         sk = (y_pos[k + 1] - y_pos[k]) / (x_pos[k + 1] - x_pos[k])
@@ -122,7 +128,7 @@ class RationalQuadraticSpline(AbstractBijection):
         # Following notation from the paper
         x_pos, y_pos, derivatives = self.x_pos, self.y_pos, self.derivatives
         in_bounds = jnp.logical_and(y >= self.interval[0], y <= self.interval[1])
-        y_robust = jnp.where(in_bounds, y, 0)  # To avoid nans
+        y_robust = jnp.where(in_bounds, y, self._interior_point)  # To avoid nans
         k = jnp.maximum(jnp.searchsorted(y_pos, y_robust) - 1, 0)
         xk, xk1, yk, yk1 = x_pos[k], x_pos[k + 1], y_pos[k], y_pos[k + 1]
         sk = (yk1 - yk) / (xk1 - xk)
@@ -150,7 +156,7 @@ class RationalQuadraticSpline(AbstractBijection):
         # Following notation from the paper (eq. 5)
         x_pos, y_pos, derivatives = self.x_pos, self.y_pos, self.derivatives
         in_bounds = jnp.logical_and(x >= self.interval[0], x <= self.interval[1])
-        x_robust = jnp.where(in_bounds, x, 0)  # To avoid nans
+        x_robust = jnp.where(in_bounds, x, self._interior_point)  # To avoid nans
         k = jnp.maximum(jnp.searchsorted(x_pos, x_robust) - 1, 0)
         xi = (x_robust - x_pos[k]) / (x_pos[k + 1] - x_pos[k])
         sk = (y_pos[k + 1] - y_pos[k]) / (x_pos[k + 1] - x_pos[k])
